@@ -663,6 +663,46 @@ def Injector.facs : Injector → List Factory
   | .named _ f => [f]
   | .broken _ _ => []
 
+/-! ## how tranp uses the container (providers/app.py, providers/syntax/entrypoints.py) -/
+
+/-- the symbols that play a role in the usage pattern -/
+structure Roles where
+  locator : Nat
+  invoker : Nat
+  modulePath : Nat
+  entrypoint : Nat
+  /-- resolved in the shared container before every combine (entrypoints.py:28-31: SyntaxParser, CacheProvider,
+      SymbolMapping) -/
+  preResolved : List Nat
+deriving Repr
+
+/-- `lambda: di` where `di` is container `k` (providers/app.py:18, entrypoints.py:34): a closure is a factory object
+    of its own; which container it closes over is part of its identity -/
+def locatorFactory (k : Nat) : Factory := ⟨1000000 + 2 * k, 1000000 + 2 * k, []⟩
+
+/-- `lambda: di.invoke` where `di` is container `k` (providers/app.py:19, entrypoints.py:35) -/
+def invokerFactory (k : Nat) : Factory := ⟨1000001 + 2 * k, 1000001 + 2 * k, []⟩
+
+/-- `di_container(definitions)` (providers/app.py:17-20) on a heap that holds `n` containers: the new container is `n` -/
+def diContainerOps (R : Roles) (n : Nat) (defs : List (Nat × Injector)) : List Op :=
+  [.newLazy defs, .on n (.bind ⟨R.locator, false⟩ (locatorFactory n)), .on n (.bind ⟨R.invoker, false⟩ (invokerFactory n))]
+
+/-- the body of `handler(module_path)` (providers/syntax/entrypoints.py:27-37) for the shared container `s` on a heap
+    that holds `n` containers: `n` is `dependency_di`, `n + 1` is `new_di`; `mp` is `lambda: module_path` -/
+def loadModuleOps (R : Roles) (s n : Nat) (deps : List (Nat × Injector)) (mp : Factory) : List Op :=
+  R.preResolved.map (fun x => Op.on s (.resolve ⟨x, false⟩)) ++
+  [.newLazy deps, .combine s n,
+   .on (n + 1) (.rebind ⟨R.locator, false⟩ (locatorFactory (n + 1))),
+   .on (n + 1) (.rebind ⟨R.invoker, false⟩ (invokerFactory (n + 1))),
+   .on (n + 1) (.bind ⟨R.modulePath, false⟩ mp),
+   .on (n + 1) (.resolve ⟨R.entrypoint, false⟩)]
+
+/-- the instance a container currently holds for a symbol (none for an unresolved definition) -/
+def instOf (σ : Spec) (c x : Nat) : Option Obj :=
+  match look σ c x with
+  | some e => if e.lazy then none else e.inst
+  | none => none
+
 /-! ## abstraction function -/
 
 /-- the abstract entry of symbol `s` in a concrete container -/
